@@ -760,12 +760,26 @@ func (w *World) Shutdown() {
 	}
 	w.mu.Unlock()
 	deadline := time.Now().Add(2 * time.Second)
-	for {
+	for i := 0; ; i++ {
 		w.mu.Lock()
 		n := len(w.goids)
 		w.mu.Unlock()
 		if n == 0 || time.Now().After(deadline) {
 			return
+		}
+		if i%8 == 7 {
+			// everything released and every goroutine blocked all the same: what is left of this run
+			// will never finish (e.g. a Watch stuck in a send nobody receives); leave it behind
+			blocked := true
+			for _, st := range goStates() {
+				if !blockedState(st) {
+					blocked = false
+					break
+				}
+			}
+			if blocked {
+				return
+			}
 		}
 		time.Sleep(100 * time.Microsecond)
 	}
